@@ -50,9 +50,10 @@ Definition max_str_digits : N := 4300.
 Definition py_int_dec (s : str) : option Z :=
   let t := lstrip_set is_c_space (map tr_char s) in
   let '(neg, t1) := match t with
-                    | 43 :: r => (false, r)
-                    | 45 :: r => (true, r)
-                    | _ => (false, t)
+                    | c :: r => if c =? 43 then (false, r)          (* '+' *)
+                                else if c =? 45 then (true, r)      (* '-' *)
+                                else (false, t)
+                    | [] => (false, t)
                     end in
   match digs t1 0 0 false with
   | None => None
